@@ -147,13 +147,14 @@ CLAIMS = {
   note="A1, A2, A4, A6",
   ref="DESIGN.md §4 C10"),
  "C11": dict(
-  technique="effect-free-path and flow rules on abstract paths; classification tables read from switch tables with compiler enum layout",
-  text="Decoder-side obligations of the I/O-fault property: on a would-block source error no call receives the decoder, the count is the "
+  technique="typestate protocol monitor (ghost state in the abstract memory) over the four reader entry points with source and decoder as opaque components; classification tables by forcing each ErrorKind variant",
+  text="Decoder-side obligations of the I/O-fault property, decided under a protocol monitor that follows every abstract path of read / next / "
+       "read_nb / next_nb with private helpers inlined (so the layering does not matter): on a would-block source error no call receives the decoder, the count is the "
        "constant 0 and the error is forwarded; on EOF / other errors reset is called exactly once and its value reported; next() returns "
        "None exactly for EOF with count 0 and forwards everything else, the nb wrappers likewise; classification tables (io::ErrorKind, "
        "nb::Error, Eof, is_eof / is_would_block) equal the specified ones; IoByteSource reads via read_exact on a 1-byte buffer. With C14 and "
-       "C17 nothing else is needed on the decoder side. Not decided: behaviour of the caller's io::Read.",
-  note="A1, A2, A4 (std's read_exact retries Interrupted), A6",
+       "C17 (whose rules this check includes: the reported count is exact) nothing else is needed on the decoder side. Not decided: behaviour of the caller's io::Read.",
+  note="A1, A2, A4 (std's read_exact retries Interrupted), A6; component contracts used by the monitor: reset() >= 1 after a push that answered Ok(false) (R-C17-CONSERVE), is_eof / is_would_block <=> kind (R-C11-KIND)",
   ref="DESIGN.md §4 C11"),
  "C12": dict(
   technique="value-range analysis of the primitive decoders: lossy-operation detection by operand ranges, dead-error rule, exhaustive byte tables by constant propagation",
@@ -169,10 +170,10 @@ CLAIMS = {
   ref="DESIGN.md §4 C12"),
  "C15": dict(
   technique="faithful-driver rules: protocol monitor over ghost state (reader), value-identity facts on abstract paths (iterator, decode) plus CFG must-pass-through rules",
-  text="decode, DecodeIterator::next and DecoderReader::read are analysed with the push decoder and the source as opaque components: every "
+  text="decode, DecodeIterator::next and the four DecoderReader entry points (read / next / read_nb / next_nb, private helpers inlined) are analysed with the push decoder and the source as opaque components: every "
        "source byte is pushed unmodified exactly once, Err and Ok(true) are forwarded unmodified (whole buffer), an Err can never reach the "
        "next iteration unreported, end of input calls finalize / reset exactly once and forwards its report, the iterator is terminal "
-       "afterwards; the decoder uses its buffer only through push / clear / deref; the decoder's mutators are called from these drivers only. "
+       "afterwards; the decoder uses its buffer only through the sealed Buffer trait (whose implementations agree: the R-C18 rules are included), Deref and Default; the decoder's mutators are called from these drivers only. "
        "With C14, C17 and C18 the front-ends report the same sequence of results.",
   note="A1, A2, A4, A6",
   ref="DESIGN.md §4 C15"),
